@@ -428,6 +428,8 @@ def lift_construct(cls):
              f"  let {ident(pv)} := item.2"]
     strs = {pn: ident(pn)}
     guarded = False
+    assigned_col = False
+    uniquified = set()
     for st in lp.body:
         if isinstance(st, ast.If) and not st.orelse and len(st.body) == 1 and isinstance(st.body[0], ast.Continue) \
                 and isinstance(st.test, ast.Compare) and len(st.test.ops) == 1 and isinstance(st.test.ops[0], ast.Is) \
@@ -435,6 +437,23 @@ def lift_construct(cls):
                 and st.test.comparators[0].value is None:
             lines.append(f"  if {ident(pv)}.isNone then (all_data, {ident(mapping)}) else")
             guarded = True
+            continue
+        if isinstance(st, ast.While) and not st.orelse and len(st.body) == 1 and isinstance(st.test, ast.Compare) \
+                and len(st.test.ops) == 1 and isinstance(st.test.ops[0], ast.In) and isinstance(st.test.left, ast.Name) \
+                and st.test.left.id in strs and st.test.left.id != pn and ast.unparse(st.test.comparators[0]) == "all_data.columns":
+            # `while col_name in all_data.columns: col_name = col_name + "<non-empty constant>"`
+            cn = st.test.left.id
+            b = st.body[0]
+            if not (isinstance(b, ast.Assign) and len(b.targets) == 1 and is_name(b.targets[0], cn)
+                    and isinstance(b.value, ast.BinOp) and isinstance(b.value.op, ast.Add) and is_name(b.value.left, cn)
+                    and isinstance(b.value.right, ast.Constant) and isinstance(b.value.right.value, str)
+                    and b.value.right.value != ""):
+                raise U(MF, f"unsupported uniquify loop body {ast.unparse(b)}")
+            if not guarded or assigned_col:
+                raise U(MF, "uniquify loop in an unexpected position")
+            suf = b.value.right.value.replace("\\", "\\\\").replace('"', '\\"')
+            lines.append(f'  let {ident(cn)} := uniquifyCol all_data {ident(cn)} "{suf}"')
+            uniquified.add(cn)
             continue
         if isinstance(st, ast.Assign) and len(st.targets) == 1:
             tg, v = st.targets[0], st.value
@@ -462,7 +481,11 @@ def lift_construct(cls):
                     raise U(MF, f"column value is not the parameter value: {ast.unparse(st)}")
                 if not guarded:
                     raise U(MF, "column assignment before the None guard")
+                if tg.slice.id not in uniquified:
+                    raise U(MF, f"column {tg.slice.id} is assigned without the `while {tg.slice.id} in all_data.columns` uniquify loop "
+                            "(two sample parameters could share a column)")
                 lines.append(f"  let all_data := setCol all_data {strs[tg.slice.id]} ({ident(pv)}.getD [])")
+                assigned_col = True
                 continue
             if isinstance(tg, ast.Subscript) and is_name(tg.value, mapping) and isinstance(tg.slice, ast.Name) and tg.slice.id in strs \
                     and isinstance(v, ast.Name) and v.id in strs:
